@@ -72,7 +72,7 @@ def run(f, fixture, rep, cfg, tier):
         "history and forbid an older signature from surviving; which key verifies is a runtime question and is not decided.")
     rep.trusted = ["rustc nightly MIR / borrow checker", "pgp crate's issuer(), base64 crate's standard engine", "OpenPGP algorithm ids"]
     for r, d in (("R1", "write footprint = {metadata.signature}"), ("R2", "freshness of the new signature header"),
-                 ("R3", "legacy tag table / base64"), ("R4", "issuer-count guard operand"), ("R5", "digest after sign/clear")):
+                 ("R3", "legacy tag table / base64"), ("R4", "issuer-count guard operand"), ("R5", "digest after sign/clear"), ("R6", "pgp signer and verifier are given the same bytes")):
         rep.rule(r, d)
     if cfg == "no-default":
         rep.ok("R1", "no signature support compiled in this configuration")
@@ -173,6 +173,10 @@ def run(f, fixture, rep, cfg, tier):
         # the engine operand is a promoted/const reference to BASE64_STANDARD: check the const item it names when visible
         names = [lf["k"].get("item") or lf["k"].get("s") for lf in enc.origins(calls[0].args[0]) if lf["kind"] == "const"] if calls else []
         rep.notes.append("encode_sig engine operand: %s" % names)
+
+        # ---- R6 -------------------------------------------------------------------------------
+        from c02 import check_pgp_data
+        check_pgp_data(f, rep, "R6", cfg)
 
         # ---- R4 -------------------------------------------------------------------------------
         kb = f.one("Package::signature_key_ids")
